@@ -26,7 +26,7 @@ def describe(tier):
                 "expressions, sanitised and unsanitised, incl. repeated and descending keys; EvaluatedFormatConstraint in {True,False} x "
                 "{None,'','msg'}; (results) every AhbExpressionEvaluationResult / RequirementConstraintEvaluationResult / "
                 "FormatConstraintEvaluationResult produced by evaluating the C09 menu (single and two-part AHB expressions) under all 6 "
-                "permutations of FULFILLED/UNFULFILLED/UNKNOWN (this is where undetermined = null outcomes arise). (whitespace) 4 AHB templates with every combination of "
+                "permutations of FULFILLED/UNFULFILLED/UNKNOWN (this is where undetermined = null outcomes arise). (whitespace) 7 AHB templates (modal marks and operators in every letter case) with every combination of "
                 f"{[repr(w) for w in WS]} in 4 gap classes; (deep) right-nested trees of depth {DEEP[tier]}; (histories) every sequence of <= {HIST_DEPTH[tier]} "
                 f"operations from {HIST_OPS} (rejected loads of documents malformed at nesting depth 1/5/25, validate(), the concise schemata, a deep load) "
                 "executed in one process, then the round trip of three reference trees. Oracle: "
@@ -40,10 +40,11 @@ def describe(tier):
 
 
 WS = [" ", "", "  ", "\t", "\n", "\r\n"]
-WS_TEMPLATES = ["Muss{0}[1]{1}U{2}[2]{3}Soll{0}[3]", "X{0}[1]{1}O{2}([2]{3}U [3]){1}", "Muss{0}[1]{1}[901]{2}K{3}", "Soll{0}[2P0..1]{1}X{2}[UB1]{3}"]
+WS_TEMPLATES = ["muss{0}[1]{1}u{2}[2]{3}SOLL{0}[3]", "m{0}[1]{1}o{2}([2]{3}x [3]){1}kann", "MUSS{0}[1]{1}∧{2}[2]{3}s{0}[3]{1}K",
+                "Muss{0}[1]{1}U{2}[2]{3}Soll{0}[3]", "X{0}[1]{1}O{2}([2]{3}U [3]){1}", "Muss{0}[1]{1}[901]{2}K{3}", "Soll{0}[2P0..1]{1}X{2}[UB1]{3}"]
 DEEP = {"quick": [10, 30, 50], "thorough": [5, 10, 20, 30, 40, 45, 50]}
 # histories (E2): operations on the schemata between round trips
-HIST_OPS = ["bad1", "bad5", "bad25", "validate", "validate-bad", "concise-load", "concise-dump", "load-deep"]
+HIST_OPS = ["bad1", "bad5", "bad25", "validate", "validate-bad", "concise-load", "concise-dump", "load-deep", "loads-edit", "load-edit"]
 HIST_DEPTH = {"quick": 3, "thorough": 4}
 HIST_TREES = ["[1] U ([2] O [3])", "Muss [1] U [2P0..1] Soll [UB1] K", "[1]"]
 
@@ -207,6 +208,7 @@ def _hist_setup():
     if not _HIST:
         sch = _SCH["tree"]()
         _HIST["valid_doc"] = sch.dump(I.parse_condition_expression_to_tree("[1] U ([2] O [3])"))
+        _HIST["valid_json"] = sch.dumps(I.parse_condition_expression_to_tree("[1] U ([2] O [3])"))
         _HIST["deep_doc"] = sch.dump(I.parse_condition_expression_to_tree(deep_expr(40)))
         trees = []
         for e in HIST_TREES:
@@ -239,6 +241,12 @@ def apply_hist_op(op):
             I.try_call(c().dump, h["trees"][0][1])
     elif op == "load-deep":
         I.try_call(sch().load, h["deep_doc"])
+    elif op in ("loads-edit", "load-edit"):
+        # load the document of the first reference tree and EDIT the tree that comes back (it is the caller's)
+        r = I.try_call(sch().loads, h["valid_json"]) if op == "loads-edit" else I.try_call(sch().load, h["valid_doc"])
+        if r[0] == "ok" and r[1].children:
+            del r[1].children[1:]
+            r[1].data = "edited"
     else:
         raise ValueError(op)
 
